@@ -158,7 +158,46 @@ def tlc_model_check(ctx, module, cfg, **kw):
     return res
 
 
-def validate_trace(ctx, module, cfg, tracefile, *, timeout=600, name=None, deque=False, heap="8g"):
+def _parse_viols(txt):
+    out = []
+    txt = " ".join(txt.split())
+    for it in re.finditer(r'\[[^\[\]]*\]', txt):
+        rec = it.group(0)
+        mi = re.search(r'inv \|-> "([^"]+)"', rec)
+        ma = re.search(r'at \|-> (\d+)', rec)
+        mf = re.search(r'info \|-> (.*?)(?:, inv \|->|, at \|->|\s*\]$)', rec)
+        if mi and ma:
+            out.append({"inv": mi.group(1), "at": int(ma.group(1)), "info": mf.group(1).strip() if mf else ""})
+    return out
+
+
+def _linear_result(ctx, res, n):
+    """Single-path trace specifications run in TLC's simulation mode; the last step prints TRACE_END with the failures."""
+    out = res["out"]
+    r = {"events": n, "accepted": False, "violated": None, "prefix": None, "out": out, "viols": []}
+    if res.get("timeout"):
+        raise MachineryError("trace validation timed out (%s, %d events)" % (res["name"], n))
+    m = re.search(r'"TRACE_END",\s*(\d+),\s*(<<.*?>>)\s*>>\s*\n', out, re.S)
+    errs = [e for e in re.findall(r"^Error: (.*)$", out, re.M) if not e.startswith("Postcondition Accepted")]
+    if not m or errs:
+        raise MachineryError("trace validation did not reach the end of the trace (%s):\n%s" % (res["name"], "\n".join(out.splitlines()[-40:])))
+    r["viols"] = _parse_viols(m.group(2))
+    if r["viols"]:
+        r["violated"], r["prefix"] = r["viols"][0]["inv"], r["viols"][0]["at"]
+    elif m.group(2).replace(" ", "") != "<<>>":
+        r["viols"] = [{"inv": "unparsed", "at": 0, "info": m.group(2)[:300]}]
+        r["violated"] = "unparsed"
+    else:
+        r["accepted"] = True
+        ctx.traces += 1
+        ctx.trace_events += n
+        ctx.states += n + 1
+        ctx.transitions += n + 1
+    ctx.log("trace %s: %d events, %s" % (res["name"], n, "accepted" if r["accepted"] else "FAILED CHECK %s at event %s" % (r["violated"], r["prefix"])))
+    return r
+
+
+def validate_trace(ctx, module, cfg, tracefile, *, timeout=600, name=None, deque=False, heap="8g", linear=False):
     """Channel B: check a recorded ndjson trace against a trace specification with TLC (-workers 1).
     Returns dict(accepted, violated, prefix, events). A trace that is not a behaviour of the spec, or on which a
     property invariant fails, is a verdict about the code; everything else is MachineryError."""
@@ -169,8 +208,11 @@ def validate_trace(ctx, module, cfg, tracefile, *, timeout=600, name=None, deque
     dst = os.path.join(ctx.scratch, "trace.ndjson")
     if os.path.abspath(tracefile) != dst:
         shutil.copy(tracefile, dst)
-    res = tlc(ctx, module, cfg, workers=1, timeout=timeout, extra_files=[dst], name=name or cfg.replace(".cfg", ""), deque=deque, heap=heap)
+    res = tlc(ctx, module, cfg, workers=1, timeout=timeout, extra_files=[dst], name=name or cfg.replace(".cfg", ""), deque=deque, heap=heap,
+              simulate="num=1" if linear else None, depth=(n + 10) if linear else None)
     out = res["out"]
+    if linear:
+        return _linear_result(ctx, res, n)
     r = {"events": n, "accepted": False, "violated": None, "prefix": None, "out": out}
     if res.get("timeout"):
         raise MachineryError("trace validation timed out (%s, %d events)" % (cfg, n))
